@@ -4,6 +4,8 @@
  * functions that never read or write those members (named in the obligation's note), because an 8 x 4 KiB
  * struct makes every cbmc query 50-100x slower. Listed in evidence under assumptions.
  */
+/* the repo's config.h first: it enables _GNU_SOURCE etc. before any system header is seen */
+#include "config.h"
 #include <limits.h>
 #include <linux/limits.h>
 #undef PATH_MAX
